@@ -717,7 +717,10 @@ void GetResidualMatrix(matrix* mx, PCAMODEL* model, size_t pc, matrix *rmx)
   /*CENTERING */
   for(j = 0; j < mx->col; j++){
     for(i = 0; i < mx->row; i++){
-      rmx->data[i][j] = mx->data[i][j] - model->colaverage->data[j];
+      if(model->colaverage->size > 0)
+        rmx->data[i][j] = mx->data[i][j] - model->colaverage->data[j];
+      else
+        rmx->data[i][j] = mx->data[i][j];
     }
   }
 
